@@ -62,7 +62,7 @@ INPLACE_CALLS = {"np.copyto", "np.put", "np.place", "np.putmask", "np.put_along_
 # callables flox receives -- user/registry kernels, assumed pure: exercised by K5 -- and method chains on fresh temporaries).
 # Every OTHER unclassified callee is translated as "may write into every argument" (fail-closed).
 PURE_UNKNOWN = {"AlignedArrays", "ScanState", "FactorProps", "combine", "reduction", "method", "func", "finalize", "agg.finalize", "preprocess",
-                "binary_op", "scan",
+                "binary_op", "scan", "op",
                 # used by the API entry points (graph construction / planning): dask and scipy constructors and pure helpers
                 "ReindexStrategy", "chunk_unique", "csr_array", "dask.array.map_blocks", "dask.array.unify_chunks", "from_array", "make_bitmask",
                 "map", "map_blocks", "normalize_axis_tuple", "npg.aggregate_numpy.aggregate", "unify_chunks",
@@ -91,6 +91,7 @@ class Fn:
             self.params.append(node.args.vararg.arg)
         if node.args.kwarg:
             self.params.append(node.args.kwarg.arg)
+        self.star_params = [a.arg for a in (node.args.vararg, node.args.kwarg) if a is not None]
         self.params.append(GLOBALS)   # pseudo-parameter: every module-level object (the registry AGGREGATIONS, caches, constants)
         self.stmts = []   # tuples
 
@@ -484,7 +485,14 @@ def collect():
                         module_names.add(nn.id)
     for f in fns.values():
         for i, p in enumerate(f.params):
-            f.add("Param", p, i)
+            if p in f.star_params:
+                # *args / **kwargs: the tuple / dict itself is created by the call (writing into it touches nothing of the caller);
+                # what it CONTAINS is the caller's
+                f.add("Param", "%star_" + p, i)
+                f.add("Fresh", p)
+                f.add("Put", p, "%star_" + p)
+            else:
+                f.add("Param", p, i)
         Extract(f, known).visit(f.node)
         local = set(f.params) | {nn.id.split("#")[0] for nn in ast.walk(f.node) if isinstance(nn, ast.Name) and isinstance(nn.ctx, ast.Store)}
         used = {nn.id for nn in ast.walk(f.node) if isinstance(nn, ast.Name) and isinstance(nn.ctx, ast.Load) and "#" not in nn.id}
@@ -521,6 +529,13 @@ ALLOWED_STORES = {
     ("core.groupby_reduce", "reindex"): "reindex.set_blockwise_for_numpy() assigns only when .blockwise is None, and _validate_reindex returns a NEW "
                                         "ReindexStrategy on every path where the caller's object has blockwise None (all_eager -> ReindexStrategy(blockwise=True)); "
                                         "exercised by C14's side-effect harness with user-supplied ReindexStrategy objects",
+    ("aggregate_flox._np_grouped_op", "out"): "`out` is the OUTPUT buffer of the kernel: allocated here by np.full(...) whenever the caller passes none, and no caller inside flox "
+                                              "passes one (generic_aggregate never forwards out=); it is never one of the task's input arrays",
+    ("aggregate_flox._lerp", "out"): "output buffer: np.empty_like(...) here unless given; only quantile_ calls it, forwarding the buffer of _np_grouped_op",
+    ("aggregate_flox.quantile_", "out"): "output buffer forwarded to _lerp (see _np_grouped_op)",
+    ("aggregate_flox.quantile_", "result"): "result IS the output buffer returned by _lerp (masking all-NaN groups in the buffer the kernel owns)",
+    ("aggregate_flox._nan_grouped_op", "result"): "result is the array returned by the grouped kernel `func` (= _np_grouped_op, which returns the buffer it allocated); "
+                                                  "the IR only knows that an unreviewed callable may return a view of its arguments",
     ("core._reduce_blockwise", "agg"): "idempotent attribute write agg.finalize = None on the per-call deep copy of the blueprint",
 }
 
@@ -709,6 +724,12 @@ def main(out):
         h.update(open(p, "rb").read())
     fns = collect()
     apply_allowlist(fns)
+    # the engine kernels are reached through generic_aggregate's dynamic dispatch (getattr(module, func)): every module-level
+    # function of the three kernel modules runs inside tasks and is a root in its own right
+    for qn in sorted(fns):
+        mod = qn.split(".")[0]
+        if mod in ("aggregate_flox", "aggregate_npg", "aggregate_numbagg") and qn.count(".") == 1 and "@" not in qn and qn not in TASK_ROOTS:
+            TASK_ROOTS.append(qn)
     task_order = reachable(fns, TASK_ROOTS)
     order = reachable(fns, TASK_ROOTS + API_ROOTS)
     missing = [r for r in TASK_ROOTS + API_ROOTS if r not in fns]
